@@ -12,6 +12,8 @@ abbrev CKey := Nat
 abbrev Ast := Nat
 abbrev Html := Nat
 abbrev Err := Nat
+/-- the render options of one compilation (debug tags …): they steer the renderer, never the parser or the cache key -/
+abbrev Opt := Nat
 
 structure Entry where
   ast : Ast
@@ -42,7 +44,7 @@ def init (ttl : Int := 300000000000) : CS :=
     cleaner := false, spawned := 0, cancelled := 0, parses := 0 }
 
 inductive Op
-  | render (d : Doc) (cached : Bool)
+  | render (d : Doc) (cached : Bool) (o : Opt)
   | advance (δ : Nat)
   | tick                    -- one sweep of the cleanup goroutine (only a live cleaner sweeps)
   | stop                    -- StopASTCacheCleanup
@@ -53,15 +55,15 @@ deriving Repr
 /-- parameters: the parser, the (pure, AST-preserving: C16) renderer, the hash -/
 structure World where
   parse : Doc → Except Err Ast
-  rend : Ast → Html
+  rend : Ast → Opt → Html
   hash : Doc → CKey
 
-def spec (w : World) (d : Doc) : Except Err Html := (w.parse d).map w.rend
+def spec (w : World) (d : Doc) (o : Opt) : Except Err Html := (w.parse d).map (fun a => w.rend a o)
 
-def miss (w : World) (s : CS) (d : Doc) : CS × Except Err Html :=
+def miss (w : World) (s : CS) (d : Doc) (o : Opt) : CS × Except Err Html :=
   match w.parse d with
   | .ok a => ({ s with store := fun k => if k = w.hash d then some ⟨a, s.now + s.ttl, s.now, s.ttl⟩ else s.store k,
-                       parses := s.parses + 1 }, .ok (w.rend a))
+                       parses := s.parses + 1 }, .ok (w.rend a o))
   | .error e => ({ s with parses := s.parses + 1 }, .error e)
 
 /-- `startASTCacheCleanup`: register a cleaner unless one is registered -/
@@ -76,17 +78,17 @@ def sweep (s : CS) : CS :=
                              | none => none }
 
 def step (w : World) (s : CS) : Op → CS × Option (Except Err Html)
-  | .render d false => ({ s with parses := s.parses + 1 }, some (spec w d))
-  | .render d true =>
+  | .render d false o => ({ s with parses := s.parses + 1 }, some (spec w d o))
+  | .render d true o =>
     let s := arm s
     match s.store (w.hash d) with
     | some e =>
-      if s.now < e.expires then (s, some (.ok (w.rend e.ast)))                       -- hit: nothing changes
+      if s.now < e.expires then (s, some (.ok (w.rend e.ast o)))                       -- hit: nothing changes
       else
         let s' := { s with store := fun k => if k = w.hash d then none else s.store k }  -- delete-on-expired
-        let r := miss w s' d
+        let r := miss w s' d o
         (r.1, some r.2)
-    | none => let r := miss w s d; (r.1, some r.2)
+    | none => let r := miss w s d o; (r.1, some r.2)
   | .advance δ => ({ s with now := s.now + δ }, none)
   | .tick => (if s.cleaner then sweep s else s, none)
   | .stop => (if s.cleaner then { s with cleaner := false, cancelled := s.cancelled + 1 } else s, none)
@@ -118,7 +120,7 @@ theorem arm_inv (w : World) (s : CS) (h : CInv w s) : CInv w (arm s) := by
 @[simp] theorem arm_ttl (s : CS) : (arm s).ttl = s.ttl := by unfold arm; split <;> rfl
 @[simp] theorem arm_cleaner (s : CS) : (arm s).cleaner = true := by unfold arm; split <;> simp_all
 
-theorem miss_inv (w : World) (s : CS) (d : Doc) (h : CInv w s) : CInv w (miss w s d).1 := by
+theorem miss_inv (w : World) (s : CS) (d : Doc) (o : Opt) (h : CInv w s) : CInv w (miss w s d o).1 := by
   unfold miss
   cases hp : w.parse d with
   | error e => exact ⟨h.sound, h.stamp, h.life⟩
@@ -136,19 +138,19 @@ theorem miss_inv (w : World) (s : CS) (d : Doc) (h : CInv w s) : CInv w (miss w 
       · exact h.stamp k e hk
     · exact h.life
 
-theorem miss_out (w : World) (s : CS) (d : Doc) : (miss w s d).2 = spec w d := by
+theorem miss_out (w : World) (s : CS) (d : Doc) (o : Opt) : (miss w s d o).2 = spec w d o := by
   unfold miss spec
   cases w.parse d <;> rfl
 
 theorem step_inv (w : World) (s : CS) (op : Op) (h : CInv w s) : CInv w (step w s op).1 := by
   cases op with
-  | render d c =>
+  | render d c o =>
     cases c
     · exact ⟨h.sound, h.stamp, h.life⟩
     · simp only [step]
       have ha := arm_inv w s h
       cases hs : (arm s).store (w.hash d) with
-      | none => exact miss_inv w _ d ha
+      | none => exact miss_inv w _ d o ha
       | some e =>
         simp only
         split
@@ -216,8 +218,8 @@ theorem step_inv (w : World) (s : CS) (op : Op) (h : CInv w s) : CInv w (step w 
 /-- **C13**: with a collision-free hash, every compilation — cached or not, whatever happened before —
     returns what the stateless compiler returns. -/
 theorem step_transparent (w : World) (hinj : ∀ d d', w.hash d = w.hash d' → d = d')
-    (s : CS) (h : CInv w s) (d : Doc) (c : Bool) :
-    (step w s (.render d c)).2 = some (spec w d) := by
+    (s : CS) (h : CInv w s) (d : Doc) (c : Bool) (o : Opt) :
+    (step w s (.render d c o)).2 = some (spec w d o) := by
   cases c
   · simp [step]
   · simp only [step]
@@ -238,12 +240,12 @@ def runOps (w : World) (s : CS) : List Op → CS × List (Option (Except Err Htm
 
 def expected (w : World) : List Op → List (Option (Except Err Html))
   | [] => []
-  | .render d _ :: r => some (spec w d) :: expected w r
+  | .render d _ o :: r => some (spec w d o) :: expected w r
   | _ :: r => none :: expected w r
 
-theorem step_nonrender_out (w : World) (s : CS) (op : Op) (h : ∀ d c, op ≠ .render d c) : (step w s op).2 = none := by
+theorem step_nonrender_out (w : World) (s : CS) (op : Op) (h : ∀ d c o, op ≠ .render d c o) : (step w s op).2 = none := by
   cases op with
-  | render d c => exact absurd rfl (h d c)
+  | render d c o => exact absurd rfl (h d c o)
   | _ => rfl
 
 theorem C13_transparent (w : World) (hinj : ∀ d d', w.hash d = w.hash d' → d = d') :
@@ -255,9 +257,9 @@ theorem C13_transparent (w : World) (hinj : ∀ d d', w.hash d = w.hash d' → d
     intro s h
     have hi := step_inv w s op h
     cases op with
-    | render d c =>
+    | render d c o =>
       simp only [runOps, expected]
-      rw [step_transparent w hinj s h d c, ih _ hi]
+      rw [step_transparent w hinj s h d c o, ih _ hi]
     | advance δ => simp only [runOps, expected]; rw [show (step w s (.advance δ)).2 = none from rfl, ih _ hi]
     | tick => simp only [runOps, expected]; rw [show (step w s .tick).2 = none from rfl, ih _ hi]
     | stop => simp only [runOps, expected]; rw [show (step w s .stop).2 = none from rfl, ih _ hi]
@@ -273,28 +275,28 @@ theorem inv_reachable (w : World) (ttl : Int) (ops : List Op) : CInv w (runOps w
 
 /-- **C14**: reuse happens strictly before expiry; a hit changes nothing in the store (so it cannot extend
     the expiry); at or after expiry the entry is dropped and the document parsed again -/
-theorem hit_no_change (w : World) (s : CS) (d : Doc) (e : Entry) (hs : s.store (w.hash d) = some e)
-    (hnow : s.now < e.expires) : (step w s (.render d true)).1 = arm s := by
+theorem hit_no_change (w : World) (s : CS) (d : Doc) (o : Opt) (e : Entry) (hs : s.store (w.hash d) = some e)
+    (hnow : s.now < e.expires) : (step w s (.render d true o)).1 = arm s := by
   simp [step, hs, hnow]
 
-theorem expired_reparsed (w : World) (s : CS) (d : Doc) (e : Entry) (hs : s.store (w.hash d) = some e)
+theorem expired_reparsed (w : World) (s : CS) (d : Doc) (o : Opt) (e : Entry) (hs : s.store (w.hash d) = some e)
     (hnow : e.expires ≤ s.now) (a : Ast) (hp : w.parse d = .ok a) :
-    (step w s (.render d true)).1.store (w.hash d) = some ⟨a, s.now + s.ttl, s.now, s.ttl⟩ := by
+    (step w s (.render d true o)).1.store (w.hash d) = some ⟨a, s.now + s.ttl, s.now, s.ttl⟩ := by
   have : ¬ s.now < e.expires := by omega
   simp [step, hs, this, miss, hp]
 
-theorem failed_parse_not_cached (w : World) (s : CS) (d : Doc) (er : Err) (hp : w.parse d = .error er)
-    (hs : s.store (w.hash d) = none) : (step w s (.render d true)).1.store (w.hash d) = none := by
+theorem failed_parse_not_cached (w : World) (s : CS) (d : Doc) (o : Opt) (er : Err) (hp : w.parse d = .error er)
+    (hs : s.store (w.hash d) = none) : (step w s (.render d true o)).1.store (w.hash d) = none := by
   simp [step, hs, miss, hp]
 
 /-- a hit does not call the parser; a miss (absent or expired) calls it exactly once -/
-theorem hit_no_parse (w : World) (s : CS) (d : Doc) (e : Entry) (hs : s.store (w.hash d) = some e)
-    (hnow : s.now < e.expires) : (step w s (.render d true)).1.parses = s.parses := by
+theorem hit_no_parse (w : World) (s : CS) (d : Doc) (o : Opt) (e : Entry) (hs : s.store (w.hash d) = some e)
+    (hnow : s.now < e.expires) : (step w s (.render d true o)).1.parses = s.parses := by
   have harm : (arm s).parses = s.parses := by unfold arm; split <;> rfl
   simp only [step, arm_store, hs, arm_now, hnow, if_true, harm]
-theorem miss_one_parse (w : World) (s : CS) (d : Doc)
+theorem miss_one_parse (w : World) (s : CS) (d : Doc) (o : Opt)
     (hs : s.store (w.hash d) = none ∨ ∃ e, s.store (w.hash d) = some e ∧ e.expires ≤ s.now) :
-    (step w s (.render d true)).1.parses = s.parses + 1 := by
+    (step w s (.render d true o)).1.parses = s.parses + 1 := by
   have harm : (arm s).parses = s.parses := by unfold arm; split <;> rfl
   rcases hs with hs | ⟨e, hs, he⟩
   · simp only [step, arm_store, hs, miss]; cases w.parse d <;> simp [harm]
@@ -343,9 +345,9 @@ theorem live_cleaners (w : World) (s : CS) (h : CInv w s) : s.spawned - s.cancel
   have := h.life; split at this <;> omega
 theorem stop_then_none (w : World) (s : CS) : (step w s .stop).1.cleaner = false := by
   simp only [step]; split <;> simp_all
-theorem use_after_stop_starts_one (w : World) (s : CS) (d : Doc) :
+theorem use_after_stop_starts_one (w : World) (s : CS) (d : Doc) (o : Opt) :
     let s1 := (step w s .stop).1
-    let s2 := (step w s1 (.render d true)).1
+    let s2 := (step w s1 (.render d true o)).1
     s2.cleaner = true ∧ s2.spawned = s1.spawned + 1 := by
   have h1 : (step w s .stop).1.cleaner = false := stop_then_none w s
   generalize (step w s .stop).1 = s1 at h1
